@@ -27,6 +27,9 @@ COMPUTE = [
     "ff_integral",
     "factor_iteration",
     "config_cal_fitfractions",
+    "build_amp_matrix",
+    "build_angle_amp_matrix",
+    "build_int_matrix",
 ]
 BLOCKS = [
     "amp.temp_params",
@@ -449,6 +452,13 @@ class Session:
             finally:
                 gen.close()
             return out
+        if k in ("build_amp_matrix", "build_angle_amp_matrix", "build_int_matrix"):
+            # the matrix builders behind the cached strategies: they walk over chains and (l,s) couplings
+            from tf_pwa.experimental import build_amp, opt_int
+
+            f = {"build_amp_matrix": build_amp.build_amp_matrix, "build_angle_amp_matrix": build_amp.build_angle_amp_matrix, "build_int_matrix": opt_int.build_int_matrix}[k]
+            r = f(self.dg, D)
+            return len(r)
         if k == "config_cal_fitfractions":
             prm = self._params(op.get("p", []))
             if len(prm) == 2:  # a fit-result like object carrying .params is accepted too
